@@ -130,16 +130,16 @@ PROPS["C12"] = {
     "level": "fault_enumeration",
     "rule": ("Per generated subject every fault position is enumerated: (a) for a generated tree, Pack into a writer that fails (short write + "
              "error) at EVERY byte offset of the clean output (<=4KiB; every Write-call boundary +-1 and midpoint beyond) must return a "
-             "non-nil, non-IllegalSlug error; (b) for a generated well-formed archive, Unpack from a reader that is truncated or returns an "
+             "non-nil, non-IllegalSlug error (likewise Bundle.WriteArchive of a built bundle: every offset up to 2 KiB, beyond that every Write-call boundary and the first and last 300 bytes); (b) for a generated well-formed archive, Unpack from a reader that is truncated or returns an "
              "error at EVERY byte offset (also with 1-, 7- and 512-byte reads) must return a non-policy error, or - if nil - the destination "
              "equals the tree of the complete archive; policy rejections (escaping names and links, entry kinds a slug may not contain, entries placed through a link of the archive, links leaving by way of another link) must be *IllegalSlugError; (c) bundle "
              "builds: see DESIGN. Non-trivial = a fault that lands after progress was made (offset>0 for writers, >20 bytes for readers) / a "
              "policy rejection; distinct = (subject hash, offset, kind)."),
     "assumptions": ["a crash is modelled as an observation at a callback boundary, not a kill between two syscalls"],
-    "quick": [rapid("packwriter", "^TestPropPackWriter$", 12, shards=3), rapid("unpackreader", "^TestPropUnpackReader$", 12, shards=3),
+    "quick": [rapid("archivewriter", "^TestPropArchiveWriter$", 6, shards=3), rapid("packwriter", "^TestPropPackWriter$", 12, shards=3), rapid("unpackreader", "^TestPropUnpackReader$", 12, shards=3),
               rapid("policy", "^TestPropPolicy$", 600, shards=1), rapid("bundlefaults", "^TestPropBundleFaults$", 25, shards=4),
               rapid("diagnostics", "^TestPropDiagnostics$", 800, shards=1), rapid("worlderrors", "^TestPropWorldErrors$", 1500, shards=1)],
-    "thorough": [rapid("packwriter", "^TestPropPackWriter$", 150, shards=5), rapid("unpackreader", "^TestPropUnpackReader$", 150, shards=5),
+    "thorough": [rapid("archivewriter", "^TestPropArchiveWriter$", 60, shards=4), rapid("packwriter", "^TestPropPackWriter$", 150, shards=5), rapid("unpackreader", "^TestPropUnpackReader$", 150, shards=5),
                  rapid("policy", "^TestPropPolicy$", 20000, shards=1), rapid("bundlefaults", "^TestPropBundleFaults$", 400, shards=8),
                  rapid("diagnostics", "^TestPropDiagnostics$", 20000, shards=2), rapid("worlderrors", "^TestPropWorldErrors$", 30000, shards=2)],
 }
@@ -186,10 +186,11 @@ PROPS["C20"] = {
              "kind, dereferenced files and directories (also nested, also an external directory whose walk fails after two files), ignored subtrees, empty and 64KiB files. Oracle: Meta.Files equals the "
              "decoded entry names in order; Meta.Size equals the sum of header sizes of regular entries and the sum of body bytes read back; "
              "non-regular entries carry no body. Non-trivial = a dereferenced link, ignore processing on, an empty file, an empty tree or "
-             "links; distinct by case hash."),
+             "links; distinct by case hash. Shrinking sub-check: a 40-300 KiB incompressible file is truncated (or appended to) by the writer handed "
+             "to Pack once 1 B - 60 KB of output have arrived; Pack may fail, but if it returns nil the same three equalities must hold."),
     "assumptions": ["cases where Pack legitimately fails (illegal link without deref) are counted, not judged"],
-    "quick": [rapid("meta", "^TestPropMeta$", 1500, shards=3)],
-    "thorough": [rapid("meta", "^TestPropMeta$", 15000, shards=10)],
+    "quick": [rapid("meta", "^TestPropMeta$", 1500, shards=3), rapid("shrinking", "^TestPropShrink$", 150, shards=1)],
+    "thorough": [rapid("meta", "^TestPropMeta$", 15000, shards=10), rapid("shrinking", "^TestPropShrink$", 1500, shards=1)],
 }
 
 PROPS["C16"] = {
